@@ -237,31 +237,66 @@ PREDS = {
     "holds": "fun c => negb (wf_C19 (fst c)) || P_C19 (fst c) (snd c)",
     "outside_guard": "fun c => wf_C19 (fst c)",
 }
-SIG_PREDS = {s: f"fun c => negb (has_sig {cstr(s)} (fst c) (snd c))" for s in SIGS}
+def classify(terms: list[str], tag: str) -> list[list[str]]:
+    """Coq computes, once per failing case, the labels of the violated clauses (Spec.P_C19.sigs_C19)."""
+    d = core.BUILD / "cases" / ID / tag
+    d.mkdir(parents=True, exist_ok=True)
+    names = clist(cstr(s) for s in SIGS)
+    files = []
+    per_file = 400
+    for k in range(0, len(terms), per_file):
+        body = ";\n".join(f"({i}%nat, {terms[i]})" for i in range(k, min(len(terms), k + per_file)))
+        txt = (core.CASE_HEADER.split("{imports}")[0] + IMPORTS + "\n"
+               + f"Definition names : list string := {names}.\n"
+               + f"Definition cases : list (nat * ({TY})) := [\n{body}\n].\n"
+               + "Eval vm_compute in (map (fun c => (fst c, sig_codes names (fst (snd c)) (snd (snd c)))) cases).\n")
+        f = d / f"sigs_{k // per_file}.v"
+        f.write_text(txt)
+        files.append(f)
+    out: list[list[str]] = [[] for _ in terms]
+
+    def one(f):
+        p = core.coqc_file(f, timeout=900)
+        if p.returncode != 0:
+            raise core.CheckFailure(f"case file {f} failed to compile:\n{(p.stdout + p.stderr)[-3000:]}")
+        found = re.findall(r"\(\s*(\d+),\s*\[([\d;\s]*)\]\s*\)", p.stdout)
+        if len(found) != f.read_text().count("%nat, "):
+            raise core.CheckFailure(f"unexpected coqc output for {f}: {p.stdout[-1500:]}")
+        return found
+
+    from concurrent.futures import ThreadPoolExecutor
+    with ThreadPoolExecutor(max_workers=core.NPROC) as ex:
+        for found in ex.map(one, files):
+            for i, codes in found:
+                out[int(i)] = [SIGS[int(c)] if int(c) < len(SIGS) else "unclassified"
+                               for c in re.findall(r"\d+", codes)]
+    for f in files:
+        for ext in (".vo", ".vok", ".vos", ".glob"):
+            f.with_suffix(ext).unlink(missing_ok=True)
+        (f.parent / ("." + f.stem + ".aux")).unlink(missing_ok=True)
+    return out
 
 
 def evaluate(cases: list[dict], outs: list[dict], tag="cases"):
-    """Returns (ok_idx, res) where ok_idx are the cases with a proper output (no exception)."""
+    """res: label -> indices (into cases) where the predicate is false; sigs: failing index -> labels."""
     ok_idx = [i for i, o in enumerate(outs) if "exc" not in o]
     terms = [cpair(cinput(cases[i]), coutput(outs[i])) for i in ok_idx]
     res = core.run_case_files(ID, TY, IMPORTS, PREDS, terms, per_file=300, tag=tag) if terms else \
         {k: [] for k in PREDS}
-    res = {k: [ok_idx[j] for j in v] for k, v in res.items()}
     sigs: dict[int, list[str]] = {}
     if res["holds"]:
-        bad = res["holds"]
-        sres = core.run_case_files(ID, TY, IMPORTS, SIG_PREDS,
-                                   [cpair(cinput(cases[i]), coutput(outs[i])) for i in bad],
-                                   per_file=300, tag=tag + "_sigs")
-        for s, idx in sres.items():
-            for j in idx:
-                sigs.setdefault(bad[j], []).append(s)
+        labels = classify([terms[j] for j in res["holds"]], tag + "_sigs")
+        for j, ls in zip(res["holds"], labels):
+            sigs[ok_idx[j]] = ls
+    res = {k: [ok_idx[j] for j in v] for k, v in res.items()}
     return res, sigs
 
 
 def what_of(sig: str) -> str:
     if sig in WHAT:
         return WHAT[sig]
+    if "/" not in sig:
+        return "P_C19 is false on the implementation's output (clause not classified)"
     kind, cls = sig.split("/", 1)
     if kind == "upload-skipped":
         return f"file not scheduled for upload although old.get(p) != new[p] ({cls}: same splitlines())"
